@@ -22,7 +22,8 @@ RULE = ("Hypothesis-generated operator expression trees (every sigpy.linop class
         "leaf other than Identity/Reshape and M is not a scaled permutation; distinct = tree signature "
         "(classes+parameters, array payload excluded).")
 ASSUMPTIONS = [
-    "CPU backend; ToDevice/AllReduce (GPU/MPI) not generated",
+    "CPU backend; ToDevice is generated between CPU devices and AllReduce/AllReduceAdjoint over a single-process Communicator (no GPU/MPI on this image)",
+    "Sense options tseg (2-D, unbatched), transp_nufft (gridded coordinates), comm (single process) and ishape are generated in the mri part",
     "operator spaces <= ~40 input / ~96 output elements (dense materialisation), tree depth <= 2 (+adaptors)",
     "0-dimensional operator shapes excluded (Linop.__call__ treats numpy scalars as scaling)",
     "valid-mode convolution leaves are generated with data >= filter on every axis (other combinations belong to C08)",
